@@ -55,6 +55,9 @@ CHECKS = {
  "C12": ("identity monitor: outputs of the crate's LU/Jacobi routines and of nalgebra's generic decompositions over dual scalars are plugged into the defining identities (A x = b, A A^-1 = I, cofactor determinant, A V = V diag(lambda), V^T V = I, ordering, L L^T = M, norm) evaluated part by part in the reference model algebra; singular real parts must be reported",
          "Runtime monitoring: ~7e4 (quick) / ~3e6 (thorough) routine calls over sizes 1..6, condition numbers 1..100, five row orders (both permutation parities, ~800 distinct pivot-row sequences observed), 7 scalar types for the crate's routines and 5 field types for nalgebra, singular and hostile (reducible real part) classes.",
          "norm-wise tolerances K*n*kappa^min(order+1,3)*(order+1)^2*u (linear systems), K*n^2*(order+1)^2*u (eigen; 1e-9 for nalgebra whose own f64 residual is 2.5e-11); three listed findings K3-K5 (eigen decisions on real parts)", "DESIGN.md 3/C12"),
+ "C17": ("differential monitor across the CPython ABI: generated programs on the Python classes (operators, reflected operators, ** with int/float/dual, named methods, getters, repr, ndarray operands) and driver functions with Python callbacks, compared bit for bit with mirror functions that run the same program / driver directly on the Rust types inside the same extension module",
+         "Runtime monitoring: ~4e4 (quick) / ~2e6 (thorough) Python values compared bitwise (parts, presence, repr == to_string) over the 8 constructible classes and the vector classes seen inside driver callbacks (gradient/hessian n = 1..12 incl. the dynamic fallback, jacobian m x n, partial_hessian (m,n) incl. dynamic, all scalar drivers, third_partial_derivative_vec index patterns), exception propagation and documented TypeErrors.",
+         "one interpreter (CPython 3.11, numpy 2.x); no memory-safety lane across FFI (Miri cannot cross it, valgrind on CPython is noise-dominated)", "DESIGN.md 3/C17"),
  "C01": ("reference-model monitor: every call of every elementary function on every type vs power-series Taylor composition, stratified random inputs",
          "Runtime monitoring: the real functions are executed on ~3e5 (quick) / ~1e7 (thorough) generated operands over 51 type instantiations and every argument region; each result part is compared with an independent truncated-Taylor-algebra model within 32*u*sum|terms|. Holds on what was observed, not a proof.",
          "trusts libm for g(x0); tolerance constant calibrated on the unchanged tree (max observed ratio < 10)", "DESIGN.md 3/C01"),
@@ -78,7 +81,7 @@ for pid in ids:
         })
 manifest = {
  "version": 1,
- "setup_cmd": "cd /verif/harness && CARGO_NET_OFFLINE=true cargo build --release --bins 2>&1 | tail -n 3",
+ "setup_cmd": "cd /verif/harness && CARGO_NET_OFFLINE=true cargo build --release --bins 2>&1 | tail -n 3 && cargo build --release -p ndv-miri 2>&1 | tail -n 1 && cd ndv-py && PYO3_PYTHON=/opt/veriftools/pyvenv/bin/python CARGO_NET_OFFLINE=true cargo build --release 2>&1 | tail -n 1",
  "hooks": {
    "guard": "num_dual_verif",
    "enable": "no source hooks are needed: every property is observable at the public API (public fields, Derivative::{some,none,unwrap_generic}, PartialEq/Debug of Derivative); the cfg name is reserved and unused",
